@@ -12,7 +12,7 @@ VARIANTS = {
     "nopthread": [d for d in XL_DEFS if "PTHREAD" not in d],
     "bundled": [d for d in XL_DEFS if not any(x in d for x in ("GETOPT", "LIBGEN", "STRDUP"))],
 }
-PROPS = {"C09": (12000, 400000), "C10": (12000, 400000), "C20": (10000, 300000)}
+PROPS = {"C09": (30000, 800000), "C10": (40000, 800000), "C20": (30000, 600000)}
 
 
 def build(variant="default"):
